@@ -206,16 +206,19 @@ DyEq(a, b) == DyCmp(a, b) = 0
 \* |x| <= 2^-k * y   (y >= 0)
 DyWithin(x, k, y) == DyLe(DyScale2(DyAbs(x), k), y)
 
-\* IEEE-754 binary64 rounding (round to nearest, ties to even) of a dyadic value in the normal range
-DyRound53(a) ==
+\* IEEE-754 rounding (round to nearest, ties to even) of a dyadic value to a significand of `bits` bits
+\* (normal range; the callers keep exponents away from the subnormal / overflow ranges)
+DyRoundTo(a, bits) ==
     LET n == BitLen(a.m)
-    IN  IF n <= 53 THEN a
-        ELSE LET k == n - 53
+    IN  IF n <= bits THEN a
+        ELSE LET k == n - bits
                  q == Shr(a.m, k)
                  half == Bit(a.m, k - 1) = 1
                  rest == ~LowBitsZero(a.m, k - 1)
                  up == half /\ (rest \/ Bit(q, 0) = 1)
              IN  Dy(a.s, IF up THEN Add(q, FromInt(1)) ELSE q, a.e + k)
+DyRound53(a) == DyRoundTo(a, 53)
+DyRound24(a) == DyRoundTo(a, 24)
 DyAddF64(a, b) == DyRound53(DyAdd(a, b))
 
 =============================================================================
